@@ -412,8 +412,8 @@ impl<W: WorldSpec> Engine<W> {
             }
         }
         let am = &self.ms[wid].archs[ta];
-        let (r, c) = (am.removals, am.creations);
-        self.add_dir(dd, t, wid, r, c);
+        let (r, c, v) = (am.removals, am.creations, am.ver);
+        self.add_dir(dd, t, wid, r, c, v);
         self.stats.inc("mint_direct");
     }
 
